@@ -107,6 +107,8 @@ def fetchOf (kind : String) (data : Bytes) (complete : Bool) : Option Fetch :=
   else if kind.startsWith "S" then
     (if kind == "S200" then some (Fetch.body data complete) else some Fetch.fail)
   else if kind.startsWith "R" then some (Fetch.body data complete)
+  -- gzip content coding: decoded transparently by the client; a cut stream is a cut body
+  else if kind == "G" then some (Fetch.body data complete)
   else none
 
 def parseInputs : List String → Option (List (Bool × Fetch))
@@ -217,10 +219,13 @@ def rowsOf (ls : List LState) : List String :=
       toString (maskOf x new.inForce), "0", reparse new.flt.file])
 
 /-- `set_rules` (any handler that only requests a rebuild) and the loop step. -/
-def stepQueue (isLoop : Bool) (dst : DSt) (impl : List String) : Option (DSt × String) := do
+def stepQueue (isLoop : Bool) (dst : DSt) (impl : List String) (rm : Option Nat := none) :
+    Option (DSt × String) := do
   let st := dst.1
   let bs : BState := ⟨st.map (·.l), dst.2⟩
-  let bs' := if isLoop then drain bs else enqueue bs
+  let bs' := match rm with
+    | some i => removeAsync bs i
+    | none => if isLoop then drain bs else enqueue bs
   let m := "\t".intercalate ((if isLoop then [] else ["200"]) ++ rowsOf bs'.ls)
   let agree := m == "\t".intercalate impl
   let rest := if isLoop then impl else impl.drop 1
@@ -232,14 +237,15 @@ def stepQueue (isLoop : Bool) (dst : DSt) (impl : List String) : Option (DSt × 
         let dx ← st[x]?
         let o ← obs[x]?
         let new ← bs'.ls[x]?
-        match refreshSpecWhy x dx.prev Fetch.fail false o with
+        match (if rm == some x then none else refreshSpecWhy x dx.prev Fetch.fail false o) with
         | some w => some w
         | none => if isLoop then loopSpecWhy x new.flt.enabled o else none
       let st' := (List.range st.length).filterMap fun x => do
         let new ← bs'.ls[x]?
         let o ← obs[x]?
         let dx ← st[x]?
-        pure (⟨new, o, dx.url⟩ : DL)
+        -- a removed list's URL is free again
+        pure (⟨new, o, if rm == some x then (2000000 + x, 0) else dx.url⟩ : DL)
       pure ((st', bs'.pending), verdict agree (whys.head?.map ("C15." ++ ·)) m)
   | none => pure (dst, verdict false none m)
 
@@ -259,6 +265,12 @@ def step (dst : DSt) (line : String) : DSt × String :=
       | "C15.seturl" => (match stepSetURL dst ins impl with | some (s, o) => (s, o) | none => (dst, "bad-op"))
       | "C15.setrules" => (match stepQueue false dst impl with | some (s, o) => (s, o) | none => (dst, "bad-op"))
       | "C15.loop" => (match stepQueue true dst impl with | some (s, o) => (s, o) | none => (dst, "bad-op"))
+      | "C15.remove" =>
+        (match ins with
+         | [i] => (match i.toNat? with
+           | some k => (match stepQueue false dst impl (some k) with | some (s, o) => (s, o) | none => (dst, "bad-op"))
+           | none => (dst, "bad-op"))
+         | _ => (dst, "bad-op"))
       | _ => (dst, "bad-op")
   | [] => (dst, "bad-op")
 
